@@ -50,7 +50,48 @@ def opts():
 
 def universe(seed, uid):
     rng = core.rng_for(seed, PROP, 'uni%d' % uid)
-    return gen.rand_universe(rng, opts(), uid=uid)
+    ir = gen.rand_universe(rng, opts(), uid=uid)
+    if uid == NAMING_MATRIX:
+        naming_matrix(ir, rng)
+    return ir
+
+
+NAMING_MATRIX = 9300
+
+
+def naming_matrix(ir, rng):
+    """Replaces the services of a generated universe by one whose methods are the full product
+    {0, 1, 2 request headers} x {0, 1, 2 response headers} x {default names, _operation_name, _in_message_name} x {declared faults or not},
+    spread over two port types: every way a message, part, header or fault reference of the document gets its name."""
+    tns = ir['tns']
+    other = ([t['ns'] for t in ir['types'] if t['ns'] != tns] or [tns])[0]
+    prim = lambda k: {'prim': k, 'facets': {}}
+    ir['types'] = list(ir['types']) + [
+        {'name': 'Hx0', 'ns': tns, 'base': None, 'has_xmldata': False, 'fields': [['h', prim('Unicode')]]},
+        {'name': 'Hx1', 'ns': other, 'base': None, 'has_xmldata': False, 'fields': [['k', prim('Integer')]]},
+        {'name': 'Hx2', 'ns': tns, 'base': None, 'has_xmldata': False, 'fields': [['t', prim('Unicode')], ['u', prim('Integer')]]}]
+    ir.setdefault('faults', [{'name': 'F0', 'ns': tns}, {'name': 'F1', 'ns': other}])
+    heads = {0: None, 1: 'Hx0', 2: ['Hx1', 'Hx2']}
+    methods = []
+    i = 0
+    for nin in (0, 1, 2):
+        for nout in (0, 1, 2):
+            for naming in ('default', 'operation_name', 'in_message_name', 'in_message_name_qualified'):
+                md = {'name': 'nm%d' % i, 'args': [['a', prim('Integer')]], 'returns': [prim('Unicode')], 'style': 'wrapped'}
+                if heads[nin]:
+                    md['in_header'] = heads[nin]
+                if heads[nout]:
+                    md['out_header'] = heads[nout] if nout != 1 else 'Hx2'
+                if naming == 'in_message_name_qualified':
+                    md['in_message_name'] = '{%s}imq_%s' % (other, md['name'])      # the request element lives in another namespace
+                elif naming != 'default':
+                    md[naming] = ('op_%s' if naming == 'operation_name' else 'im_%s') % md['name']
+                if i % 2:
+                    md['throws'] = ['F0', 'F1'][: 1 + i % 3 % 2]
+                md['port_type'] = 'PtA' if i % 3 else 'PtB'
+                methods.append(md)
+                i += 1
+    ir['services'] = [{'name': 'NamingSvc', 'methods': methods, 'port_types': ['PtA', 'PtB']}]
 
 
 def build_wsdl(ir, kind='soap11'):
@@ -463,6 +504,9 @@ def run_app(R, seed, uid, tier):
 def run(spec, R):
     for uid in range(spec['first'], spec['first'] + spec['count']):
         run_app(R, spec['seed'], uid, spec['tier'])
+    if spec['first'] == 0:
+        run_app(R, spec['seed'], NAMING_MATRIX, spec['tier'])
+        R.count('naming_matrix_universes')
 
 
 def replay(v, R):
